@@ -3,6 +3,7 @@
 package simexec
 
 import (
+	"context"
 	"errors"
 	"fmt"
 	"io"
@@ -117,6 +118,11 @@ func Command(name string, arg ...string) *Cmd {
 	}
 	return cmd
 }
+
+// CommandContext is Command; the host under test has no cancellation, so the
+// context is not consulted (a change that starts to rely on it is reported by
+// the liveness oracle if a run then never ends).
+func CommandContext(_ context.Context, name string, arg ...string) *Cmd { return Command(name, arg...) }
 
 func baseOf(p string) string {
 	if i := strings.LastIndex(p, "/"); i >= 0 {
